@@ -201,17 +201,31 @@ func TableFor(sql string) (string, error) {
 	if err != nil {
 		return "", err
 	}
-	stmt := parsed.(*sqlparser.Select)
+	stmt, ok := parsed.(*sqlparser.Select)
+	if !ok {
+		return "", fmt.Errorf("Only SELECT statements are supported, not %v", reflect.TypeOf(parsed))
+	}
 	return strings.ToLower(nodeToString(stmt.From[0])), nil
 }
 
 // Parse parses a SQL statement and returns a corresponding *Query object.
-func Parse(sql string) (*Query, error) {
+func Parse(sql string) (q *Query, err error) {
+	defer func() {
+		// malformed input must yield an error, never a panic
+		if p := recover(); p != nil {
+			q = nil
+			err = fmt.Errorf("Unable to parse %v: %v", sql, p)
+		}
+	}()
 	parsed, err := sqlparser.Parse(sql)
 	if err != nil {
 		return nil, fmt.Errorf("Error parsing %v: %v", sql, err)
 	}
-	return parse(parsed.(*sqlparser.Select))
+	stmt, ok := parsed.(*sqlparser.Select)
+	if !ok {
+		return nil, fmt.Errorf("Only SELECT statements are supported, not %v", reflect.TypeOf(parsed))
+	}
+	return parse(stmt)
 }
 
 func parse(stmt *sqlparser.Select) (*Query, error) {
